@@ -41,6 +41,10 @@ func checkC14(c *Check) {
 	ruleBuffersRefetched(c, p, "R14.8", "Writer", "CompressingReader")
 	ruleContentHashDiscipline(c, p, "R14.9")
 	ruleFullBlockReads(c, p, "R14.12")
+	ruleDestinationWriteOnly(c, p, "R14.13")
+	c.RuleDoc["R14.13"] = "the block compressors read a destination byte only after storing it in the same call (no dependence on the buffer's previous contents)"
+	ruleNoEmptyBlock(c, p, "R14.14", "Writer")
+	c.RuleDoc["R14.14"] = "= R09.14 for the Writer: an empty block is never emitted, in any mode (a guard that holds only in sequential mode makes the frame depend on the concurrency level)"
 	c.RuleDoc["R14.12"] = "the write side fills whole blocks from the source (io.ReadFull): block boundaries do not follow the source's read sizes"
 	c.RuleDoc["R14.11"] = "a compression worker releases its source buffer only after the ordering goroutine has written the block (= the worker obligations of R08.4): the bytes written do not depend on who reuses the pool buffer meanwhile"
 	c.only(func(k string) bool { return strings.HasPrefix(k, "Writer.write.worker#") }, func() { ruleReleaseAfterUse(c, p, "R14.11") })
@@ -632,6 +636,60 @@ func ruleDictProvenance(c *Check, p *Program, rule string) {
 			c.Cond(ok, rule, "Uncompress#dict-forwarded", p.InstrPos(ci), "Uncompress forwards (block bytes, destination, dictionary) unchanged to the block decoder", "UncompressBlock(b.data, dst, dict)", "arguments of UncompressBlock are not (b.data, dst, dict)")
 		}
 	}
+	// inside the block package the dictionary keeps its end: what reaches decodeBlock is the caller's dictionary or a
+	// suffix of it (offsets count back from the end of the dictionary; cutting its tail shifts every reference)
+	if ub := findFn(c, p, rule, "internal/lz4block", "UncompressBlock"); ub != nil && len(ub.Params) >= 3 {
+		var keepsEnd func(v ssa.Value, depth int) bool
+		keepsEnd = func(v ssa.Value, depth int) bool {
+			if depth > 6 {
+				return false
+			}
+			switch x := v.(type) {
+			case *ssa.Parameter:
+				return isSliceType(x.Type())
+			case *ssa.Slice:
+				if x.Max != nil {
+					return false
+				}
+				if x.High != nil {
+					// dict[lo:len(dict)] also keeps the end
+					lc, isL := x.High.(*ssa.Call)
+					if !isL {
+						return false
+					}
+					bi, isB := lc.Call.Value.(*ssa.Builtin)
+					if !isB || bi.Name() != "len" || lc.Call.Args[0] != x.X {
+						return false
+					}
+				}
+				return keepsEnd(x.X, depth+1)
+			case *ssa.Phi:
+				for _, e := range x.Edges {
+					if !keepsEnd(e, depth+1) {
+						return false
+					}
+				}
+				return true
+			}
+			return false
+		}
+		nd := 0
+		for _, g := range deepFuncs(ub, 1) {
+			for _, ci := range callsIn(g) {
+				f := staticCallee(ci)
+				if f == nil || f.Name() != "decodeBlock" || len(ci.Common().Args) < 3 {
+					continue
+				}
+				nd++
+				c.Sites++
+				d := ci.Common().Args[2]
+				c.Cond(keepsEnd(d, 0), rule, "UncompressBlock#dictionary-keeps-its-end", p.InstrPos(ci), "the dictionary handed to the block decoder is the caller's dictionary or a suffix of it: match offsets are counted back from its end", "parameter, or dict[lo:]", "the dictionary argument "+shortVal(d)+" is cut at its end (or replaced): every offset that reaches into the dictionary then refers to other bytes")
+			}
+		}
+		if nd == 0 {
+			c.Fail(rule, "UncompressBlock#dictionary-keeps-its-end", p.Pos(ub.Pos()), "the call of decodeBlock is resolved", "no call of decodeBlock in UncompressBlock (anchor unresolved)")
+		}
+	}
 	// raw blocks: copied from b.data into dst
 	okRaw := false
 	allInstrs(un, func(in ssa.Instruction) {
@@ -797,6 +855,57 @@ func checkC18(c *Check) {
 		return false
 	})
 	c.Cond(len(eqs) >= 2 && !seen[closeW.Block()], "R18.1", "CompressingReader.Read#eof-by-identity", p.InstrPos(closeW), "the trailer is written only when the source's error is identical (==) to io.EOF or io.ErrUnexpectedEOF; errors merely wrapping them are real failures", fmt.Sprintf("%d identity comparisons; CloseW unreachable once their equal edges are deleted", len(eqs)), fmt.Sprintf("identity comparisons with io.EOF / io.ErrUnexpectedEOF found: %d; CloseW reachable without them: %v (e.g. errors.Is would also match wrapped errors and swallow the failure)", len(eqs), seen[closeW.Block()]))
+	// R18.15: the source's io.EOF / io.ErrUnexpectedEOF is consumed by the end-of-source branch: on every path from the
+	// identity test to a return, the error variable is assigned again (the trailer's result) before it is returned.
+	// Otherwise the caller is told io.EOF together with the first part of the trailer and stops reading.
+	{
+		bad := ""
+		for _, e := range eqs {
+			bo := e.b.Instrs[len(e.b.Instrs)-1].(*ssa.If).Cond.(*ssa.BinOp)
+			ev := bo.X
+			if isEOFLike(bo.X) {
+				ev = bo.Y
+			}
+			var cell ssa.Value
+			if ld, isL := ev.(*ssa.UnOp); isL && ld.Op == token.MUL {
+				switch ld.X.(type) {
+				case *ssa.Alloc, *ssa.FreeVar:
+					cell = ld.X
+				}
+			}
+			seenB := map[*ssa.BasicBlock]bool{}
+			var walk func(b *ssa.BasicBlock)
+			walk = func(b *ssa.BasicBlock) {
+				if seenB[b] || bad != "" {
+					return
+				}
+				seenB[b] = true
+				for _, in := range b.Instrs {
+					if st, isS := in.(*ssa.Store); isS && cell != nil && st.Addr == cell {
+						return // assigned again: the source's end-of-input error is gone
+					}
+					if r, isR := in.(*ssa.Return); isR {
+						for _, res := range r.Results {
+							if !isErrorType(res.Type()) {
+								continue
+							}
+							if ld, isL := res.(*ssa.UnOp); isL && ld.Op == token.MUL && cell != nil && ld.X == cell {
+								bad = p.InstrPos(in)
+							} else if cell == nil && (res == ev || derivesFromValue(res, ev)) {
+								bad = p.InstrPos(in)
+							}
+						}
+						return
+					}
+				}
+				for _, s := range b.Succs {
+					walk(s)
+				}
+			}
+			walk(e.b.Succs[e.ix])
+		}
+		c.Cond(bad == "", "R18.15", "CompressingReader.Read#source-eof-consumed", p.InstrPos(closeW), "after the source's error has compared equal to io.EOF / io.ErrUnexpectedEOF, the error result is assigned again before any return (the end of the source is not the end of the compressed stream)", "every path from the identity test to a return stores the error variable", "the return at "+bad+" hands the source's end-of-input error to the caller: the frame's trailer (or what does not fit the caller's buffer) is never read")
+	}
 	ruleErrorsNotAbsorbed(c, p, "R18.1", []*ssa.Function{fn, p.Func("", "CompressingReader.init")}, map[string]string{})
 	// R18.2: after CloseW succeeds, state = Flushing on every path; CloseW only reachable in state Reading
 	isFlush := func(in ssa.Instruction) bool {
@@ -973,6 +1082,9 @@ func checkC18(c *Check) {
 	c.RuleDoc["R18.12"] = "SizeOption sets flag and size unconditionally for the compressing reader as for the Writer"
 	ruleAdapterAccounting(c, p, "R18.11")
 	c.RuleDoc["R18.11"] = "byte accounting of the output adapter (bounds prover): Write adds exactly len(p) pending bytes, reset consumes exactly len(out) or none, clear leaves none; positions stay inside their slices"
+	ruleApplyOnlyInitial(c, p, "R18.16")
+	c.RuleDoc["R18.16"] = "CompressingReader.Apply acts only in the Initial state"
+	c.RuleDoc["R18.15"] = "the source's end-of-input error is consumed by the end-of-source branch (the error result is assigned again before any return)"
 	ruleNoEmptyBlock(c, p, "R18.10", "CompressingReader")
 	c.RuleDoc["R18.10"] = "no empty data block is emitted by the compressing reader"
 	ruleNestedRearm(c, p, "R18.9")
@@ -1216,4 +1328,54 @@ func reachWithFacts(fn *ssa.Function, skip func(b *ssa.BasicBlock, k int) bool) 
 		walk(fn.Blocks[0], map[factKey]bool{}, &steps)
 	}
 	return reached
+}
+
+// R18.16: options reach a CompressingReader only before it has produced
+// anything. Apply starts by resetting the adapter (frame, buffers, output
+// window), so accepting it in the Reading or Flushing state drops or
+// duplicates part of the stream already handed out.
+func ruleApplyOnlyInitial(c *Check, p *Program, rule string) {
+	fn := findFn(c, p, rule, "", "CompressingReader.Apply")
+	if fn == nil {
+		return
+	}
+	sets := fieldValueSets(fn, "CompressingReader.state", 8)
+	n := 0
+	bad := ""
+	var badSet vset
+	hasReset := false
+	for _, ci := range callsIn(fn) {
+		if calleeIs(ci, pkgRoot, "CompressingReader.Reset") {
+			hasReset = true
+		}
+	}
+	for _, g := range []*ssa.Function{fn} {
+		for _, ci := range callsIn(g) {
+			// the reset of the object, and the invocation of an option (a call of a value of the Option type)
+			isReset := calleeIs(ci, pkgRoot, "CompressingReader.Reset")
+			isOpt := false
+			if !ci.Common().IsInvoke() && staticCallee(ci) == nil {
+				if nt, ok := ci.Common().Value.Type().(*types.Named); ok && nt.Obj().Name() == "Option" {
+					isOpt = true
+				}
+			}
+			if !isReset && !isOpt {
+				continue
+			}
+			if isOpt && hasReset {
+				continue // the options run after the reset, which is the site judged (a call hides the field from the value sets)
+			}
+			n++
+			c.Sites++
+			s := sets[ci.Block()]
+			if !s.equal(vset{{0, 0}}) && bad == "" {
+				bad, badSet = p.InstrPos(ci), s
+			}
+		}
+	}
+	if n == 0 {
+		c.Fail(rule, "CompressingReader.Apply#only-in-initial-state", p.Pos(fn.Pos()), "the option loop of Apply is resolved", "no call of Reset or of an Option value in Apply (anchor unresolved)")
+		return
+	}
+	c.Cond(bad == "", rule, "CompressingReader.Apply#only-in-initial-state", p.Pos(fn.Pos()), "Apply resets the object and runs the options only in the Initial state (before the first Read)", fmt.Sprintf("%d site(s), state set {Initial} at each", n), "the site at "+bad+" is reachable with the state in "+badSet.String()+": options (and the reset Apply starts with) take effect in the middle of a frame already being handed out")
 }
